@@ -150,6 +150,7 @@ type Policy struct {
 	EnvProb     int  // permille per step: run one environment operation if any is enabled
 	AdvanceProb int  // permille per step: advance the clock although other actions are enabled
 	EnvWhenIdle bool // quiet stages: environment operations run whenever the system is idle
+	WatchGone   int  // permille per served WATCH request: answer 410 Gone, which makes the reflector relist (tombstones for what vanished meanwhile)
 	FaultFilter func(r *ReqRec) bool
 }
 
@@ -727,6 +728,10 @@ func (w *World) Serve(r *ReqRec, fault string) {
 	r.Fault = fault
 	if fault != "" {
 		w.FaultsFired["api:"+fault]++
+		if p != nil && p.Res != nil && p.Name != "" {
+			// the state the request would have met (oracles classify failed requests by it)
+			r.Pre = w.Store.GetRaw(p.Res, p.NS, p.Name)
+		}
 	}
 	switch {
 	case fault == "neterr":
@@ -1097,6 +1102,13 @@ func (w *World) StepOnce(p *Policy) bool {
 				w.checkInvariants()
 				return w.Violation == nil
 			}
+		}
+		if p.WatchGone > 0 && a.req.Method == "GET" && a.req.Query.Get("watch") == "true" && t.Chance(p.WatchGone, "watchgone?") {
+			w.FaultsFired["watch:410-relist"]++
+			w.Serve(a.req, "410")
+			w.settle()
+			w.checkInvariants()
+			return w.Violation == nil
 		}
 		if p.APIFault > 0 && len(p.APIFaults) > 0 && (p.FaultFilter == nil || p.FaultFilter(a.req)) && t.Chance(p.APIFault, "apifault?") {
 			fault = p.APIFaults[t.Pick(len(p.APIFaults), "apifault")]
